@@ -29,7 +29,10 @@ def xr_case(draw, nmin=1):
     nd = len(g["n"])
     g["units"] = [draw(st.sampled_from(UNITS)) for _ in range(nd)] if draw(st.booleans()) else None
     k = draw(st.integers(1, 4))
+    mix = ((draw(st.integers(0, 2**40)) + 0xC17) * 0x9E3779B97F4A7C15) % 2**64 >> 13
     return {"g": g, "k": k, "vdims": draw(gen.vdims_strategy(k)), "seed": draw(st.integers(0, 2**31)),
+            # a vector field whose components carry no labels at all (vdims=[])
+            "unlabelled": k > 1 and mix % 5 == 0,
             "dtype": draw(st.sampled_from(["float", "float", "complex", "int"])), "unit": draw(st.sampled_from(gen.FIELD_UNITS)),
             "remove": draw(st.sampled_from(["none", "none", "cell", "pmin", "pmax", "tolerance_factor", "coord-units", "geometry",
                                             "geometry+tolerance", "units-attr"])),
@@ -54,7 +57,11 @@ def build(case):
     if case["dtype"] == "int":
         arr = arr.astype(np.int64)
     kw = {"vdims": list(case["vdims"])} if case["vdims"] else {}
+    if case.get("unlabelled"):
+        kw = {"vdims": []}
     f = df.Field(mesh, nvdim=case["k"], value=arr, dtype=dt, unit=case["unit"], **kw)
+    if case.get("unlabelled"):
+        require(f.vdims is None, "unlabelled-field-has-labels", f"{f.vdims}")
     return mesh, f, arr
 
 
@@ -85,7 +92,10 @@ def check_export(case):
         if xa[dim].attrs.get("units") != units[d]:
             raise Violation("export-coord-units", f"dim {dim}: {xa[dim].attrs.get('units')!r} vs {units[d]!r}")
     if case["k"] > 1:
-        require(list(xa["vdims"].values) == list(f.vdims), "export-vdims", f"{list(xa['vdims'].values)}")
+        if f.vdims is None:
+            require("vdims" not in xa.coords, "export-vdims-invented", f"{dict(xa.coords).get('vdims')}")
+        else:
+            require(list(xa["vdims"].values) == list(f.vdims), "export-vdims", f"{list(xa['vdims'].values)}")
         require(np.array_equal(xa.values, arr, equal_nan=True), "export-values")
     else:
         require(np.array_equal(xa.values, arr[..., 0], equal_nan=True), "export-values")
